@@ -408,7 +408,7 @@ func (e *Engine) modSetOf(fn *ssa.Function) *ModSet {
 }
 
 func invokeName(call *ssa.CallCommon) string {
-	t := call.Value.Type()
+	t := types.Unalias(call.Value.Type())
 	return "(" + strings.TrimPrefix(types.TypeString(t, func(p *types.Package) string { return strings.TrimPrefix(p.Path(), modPrefix) }), "") + ")." + call.Method.Name()
 }
 
@@ -445,6 +445,11 @@ func (e *Engine) implementers(call *ssa.CallCommon) []*ssa.Function {
 
 // applyModSet havocs the heap arrays / ghosts in ms on state st (pre = state before, for frames).
 func (f *Frame) applyModSet(st *State, pre *State, ms *ModSet, why string) {
+	f.applyModSetFrame(st, pre, ms, pre.alloc)
+}
+
+// applyModSetFrame: objects with reference <= frameMark are untouched by fresh-only writes.
+func (f *Frame) applyModSetFrame(st *State, pre *State, ms *ModSet, frameMark *Term) {
 	var ks []string
 	for k := range ms.heaps {
 		ks = append(ks, k)
@@ -469,7 +474,7 @@ func (f *Frame) applyModSet(st *State, pre *State, ms *ModSet, why string) {
 		if kind == modFresh {
 			// pre-existing objects are untouched
 			b, r := freshBVar("r", sortInt)
-			f.addHyp(tTrue(), mkQuant("forall", []BVar{b}, tImp(tLe(r, pre.alloc), tEq(tSelect(nh, r), tSelect(old, r)))))
+			f.addHyp(tTrue(), mkQuant("forall", []BVar{b}, tImp(tLe(r, frameMark), tEq(tSelect(nh, r), tSelect(old, r)))))
 		}
 	}
 	var gs []string
